@@ -34,7 +34,7 @@ INTERLEAVING_MEASURE = "distinct tuples (call site, n_jobs, completion order) ov
 PROBES = ["unordered_permuted", "straggler_overtaken", "lazy_calls",
           "exec_order_permuted", "cache_epoch_clears", "cache_cold_start", "clock_jumps", "w1_runs", "wN_runs",
           "two_stage_runs", "join_twice_runs", "pickle_roundtrip_runs", "multi_row_fronts",
-          "cache_dir_histories", "cache_warm_hit", "cache_variant_not_served_stale", "disk_fault_torn",
+          "cache_dir_histories", "cache_user_edit_steps", "cache_warm_hit", "cache_variant_not_served_stale", "disk_fault_torn",
           "disk_fault_lost", "disk_fault_enospc", "disk_fault_detected_or_recomputed", "job_fault_runs",
           "job_fault_propagated", "svg_write_fault_runs", "prewarm_other_spec_runs", "prewarm_coarseness"]
 REAL_VS_STUB = {
